@@ -685,10 +685,13 @@ fn p_big(r: &mut Rng, n: usize) -> Vec<Case> {
     } else {
         (0..256).map(|c| c as Sym).collect()
     };
-    let npat = r.range(13500, 17000);
+    // every fourth item: more than 2^16 short patterns (output positions and values beyond 16 bits)
+    let many = n % 4 == 3;
+    let kind = if many { 0 } else { kind };
+    let npat = if many { r.range(90000, 100000) } else { r.range(13500, 17000) };
     let mut set: Vec<Word> = Vec::with_capacity(npat);
     for i in 0..npat {
-        let len = r.range(4, 9);
+        let len = if many { r.range(3, 4) } else { r.range(4, 9) };
         let mut w: Word = if i > 0 && r.pct(35) {
             let q = &set[r.below(i)];
             q[..r.range(1, q.len())].to_vec()
